@@ -287,10 +287,12 @@ def run(model, col, tier):
             col.check(par == f"{ctxn}[-1]", "R12.5", f"{CT}::v_{cname} scope parent", "the new scope's parent is the innermost scope ctx[-1]",
                       f"the new scope's parent is {par}", CT, m)
     vdt = ctv.own_method("v_VariableDeclaration")
-    t = unparse(vdt)
+    from ..sem import local_env as _le125, rtext as _rt125
+
     regs = [c for c in ast.walk(vdt) if isinstance(c, ast.Call) and last_attr(c) == "RegisterVariable"]
-    sc = find_assign(vdt, "scope")
-    col.check(bool(regs) and ((sc and unparse(sc[0]) == "ctx[-1]") or "ctx[-1].RegisterVariable" in t), "R12.5", f"{CT}::v_VariableDeclaration registers in the innermost scope",
+    env125 = _le125(vdt)
+    ctxp125 = vdt.args.args[2].arg
+    col.check(bool(regs) and all(isinstance(c.func, ast.Attribute) and _rt125(c.func.value, env125) == f"{ctxp125}[-1]" for c in regs), "R12.5", f"{CT}::v_VariableDeclaration registers in the innermost scope",
               "scope = ctx[-1]; scope.RegisterVariable(name, type)", "the declaration is not registered in the innermost typing scope", CT, vdt)
     gft = model.cls(TYPES, "Scope").own_method("GetFieldType")
     col.check("self.__parent.GetFieldType" in unparse(gft) and "UnknownSymbolException" in unparse(gft), "R12.5", f"{TYPES}::Scope.GetFieldType walks outward",
